@@ -378,16 +378,24 @@ func (ps *Points) Collapse() {
 		return
 	}
 
-	pts := make(map[string]Point)
+	// a point is identified by its type and key; an empty key is key "0"
+	type identity struct{ typ, key string }
+
+	pts := make(map[identity]Point)
 
 	for _, p := range *ps {
-		pA, OK := pts[p.Type+p.Key]
+		id := identity{p.Type, p.Key}
+		if id.key == "" {
+			id.key = "0"
+		}
+
+		pA, OK := pts[id]
 		if OK {
 			if pA.Time.Before(p.Time) || pA.Time.Equal(p.Time) {
-				pts[p.Type+p.Key] = p
+				pts[id] = p
 			}
 		} else {
-			pts[p.Type+p.Key] = p
+			pts[id] = p
 		}
 	}
 
